@@ -1,4 +1,5 @@
 import SparseSpace.Properties.C01
+import SparseSpace.Properties.C01gen
 #print axioms SparseSpace.C01.inv_init
 #print axioms SparseSpace.C01.inv_update
 #print axioms SparseSpace.C01.inv_reachable
@@ -12,3 +13,33 @@ import SparseSpace.Properties.C01
 #print axioms SparseSpace.C01.std_perm_init
 #print axioms SparseSpace.C01.std_eq_init_lookup
 #print axioms SparseSpace.C01.combination_collapses
+-- translator tie (Properties/C01gen.lean): the definitions generated from combiScheme.py by tools/py2lean agree with the hand model ...
+#print axioms SparseSpace.C01gen.getGrids_agrees
+#print axioms SparseSpace.C01gen.getGrids_fuel_irrelevant
+#print axioms SparseSpace.C01gen.init_active_agrees
+#print axioms SparseSpace.C01gen.init_old_agrees
+#print axioms SparseSpace.C01gen.init_adaptive_agrees
+#print axioms SparseSpace.C01gen.is_refinable_agrees
+#print axioms SparseSpace.C01gen.refine_scheme_agrees
+#print axioms SparseSpace.C01gen.update_agrees
+#print axioms SparseSpace.C01gen.update_state_agrees
+#print axioms SparseSpace.C01gen.coefficients_agree
+#print axioms SparseSpace.C01gen.getCombiScheme_adaptive_agrees
+#print axioms SparseSpace.C01gen.getCombiScheme_std_agrees
+#print axioms SparseSpace.C01gen.scheme_perm_hand_model
+#print axioms SparseSpace.C01gen.get_index_set_agrees
+#print axioms SparseSpace.C01gen.in_index_set_agrees
+#print axioms SparseSpace.C01gen.is_old_index_agrees
+#print axioms SparseSpace.C01gen.has_forward_neighbour_agrees
+#print axioms SparseSpace.C01gen.history_agrees
+-- ... and the C01 theorems transferred to the generated definitions
+#print axioms SparseSpace.C01gen.gen_inv_init
+#print axioms SparseSpace.C01gen.gen_inv_update
+#print axioms SparseSpace.C01gen.gen_inv_reachable
+#print axioms SparseSpace.C01gen.gen_update_not_refinable
+#print axioms SparseSpace.C01gen.gen_index_set_clauses
+#print axioms SparseSpace.C01gen.gen_coeff_identity
+#print axioms SparseSpace.C01gen.gen_coeff_support
+#print axioms SparseSpace.C01gen.gen_coeff_total
+#print axioms SparseSpace.C01gen.gen_reachable_scheme_valid
+#print axioms SparseSpace.C01gen.gen_std_perm_init
